@@ -3,10 +3,13 @@ package c18
 import (
 	"fmt"
 	"sort"
+	"strconv"
 	"strings"
 	"testing"
 
+	"github.com/0xReLogic/Helios/internal/config"
 	"github.com/0xReLogic/Helios/verifharness/lab"
+	"gopkg.in/yaml.v3"
 	"pgregory.net/rapid"
 )
 
@@ -78,11 +81,108 @@ func loadLabels(m *Model, viol []string, applied []string) (bool, []string) {
 	return nd >= 2 || notFirst || typedOpt, labels
 }
 
+// modelStrings lists the free-form string values of the model with the YAML path they are written at
+// ("" = not written).
+func modelStrings(m *Model) map[string]string {
+	out := map[string]string{}
+	if m.BackendsMode == "list" {
+		for i, b := range m.Backends {
+			if b.Name != nil {
+				out[fmt.Sprintf("backends.%d.name", i)] = *b.Name
+			}
+		}
+	}
+	if m.Admin.Mode == Enabled || m.Admin.Mode == DisabledV {
+		out["admin_api.auth_token"] = m.Admin.Token
+	}
+	if m.Metrics.Mode == Enabled || m.Metrics.Mode == DisabledV {
+		out["metrics.path"] = m.Metrics.Path
+	}
+	if m.Active.Mode == Enabled || m.Active.Mode == DisabledV {
+		out["health_checks.active.path"] = m.Active.Path
+	}
+	if m.Plugins.Mode == Enabled {
+		for i, p := range m.Plugins.Chain {
+			if p.Bare != "" {
+				continue
+			}
+			switch p.Name {
+			case "custom-auth":
+				out[fmt.Sprintf("plugins.chain.%d.config.apiKey", i)] = m.Plugins.APIKey()
+			case "headers":
+				out[fmt.Sprintf("plugins.chain.%d.config.set.X-App", i)] = m.Plugins.setVal()
+				out[fmt.Sprintf("plugins.chain.%d.config.request_set.X-From", i)] = m.Plugins.reqVal()
+			}
+		}
+	}
+	return out
+}
+
+func nodeAt(doc *yaml.Node, path string) *yaml.Node {
+	n := doc
+	for _, k := range strings.Split(path, ".") {
+		if n == nil {
+			return nil
+		}
+		if n.Kind == yaml.SequenceNode {
+			i, err := strconv.Atoi(k)
+			if err != nil || i >= len(n.Content) {
+				return nil
+			}
+			n = n.Content[i]
+			continue
+		}
+		n = mapGet(n, k)
+	}
+	return n
+}
+
+// renderingSelfCheck: the rendered text, read with yaml.v3, says for every free-form string exactly
+// what the model holds ("" = fine, otherwise a harness error).
+func renderingSelfCheck(m *Model, text string) string {
+	doc, err := parseDoc([]byte(text))
+	if err != nil {
+		return "harness: the rendered configuration is not YAML: " + err.Error()
+	}
+	for path, want := range modelStrings(m) {
+		n := nodeAt(doc, path)
+		if want == "" && n == nil {
+			continue
+		}
+		if got, ok := strNode(n); !ok || got != want {
+			return fmt.Sprintf("harness: rendering of %s: model holds %q, the text reads %q (string scalar: %v)", path, want, got, ok)
+		}
+	}
+	return ""
+}
+
+// stringLabels classifies the special characters that occur in the model's free-form strings.
+func stringLabels(m *Model) []string {
+	var all strings.Builder
+	for _, v := range modelStrings(m) {
+		all.WriteString(v)
+		all.WriteByte('\n')
+	}
+	t := all.String()
+	var labels []string
+	for _, c := range []struct{ label, chars string }{{"str:dollar", "$"}, {"str:percent", "%"}, {"str:hash", "#"}, {"str:backslash", "\\"}, {"str:colon", ":"},
+		{"str:braces", "{}[]"}, {"str:quote-char", "'\""}, {"str:yaml-indicator", "&*!|>@`~"}} {
+		if strings.ContainsAny(t, c.chars) {
+			labels = append(labels, c.label)
+		}
+	}
+	if strings.Contains(t, "${") {
+		labels = append(labels, "str:dollar-brace")
+	}
+	return labels
+}
+
 // TestC18LoadCombos: LoadConfig(file) returns nil  <=>  the reference predicate accepts.
 func TestC18LoadCombos(t *testing.T) {
 	sub := lab.Sub("load-vs-reference", "rapid: YAML text rendered from a generated configuration model — every section drawn from its valid variants (all documented enum values, omitted / disabled / "+
 		"disabled-with-values / enabled blocks, boundary values, shuffled section order, quoted or plain strings, comments), then 0-3 faults from the fault table (one per documented constraint and offending value, incl. two enabled listeners sharing a port in all three pairings) applied, "+
-		"so invalid sections combine; oracle: config.LoadConfig(file) == nil  <=>  reference predicate (ref.go) reports no violated documented constraint; "+
+		"so invalid sections combine; free-form strings (backend names, admin token, custom-auth apiKey, header values of the headers plugin, metrics and health-check paths) drawn from the documentation's examples, a table of values with characters that are ordinary inside a YAML scalar ($ ${..} $$ % # \\ : { } [ ] & * ! | > ' \" @ ` ~, number/bool/null look-alikes) and random strings over that alphabet, written plain, single- or double-quoted; "+
+		"oracle: config.LoadConfig(file) == nil  <=>  reference predicate (ref.go) reports no violated documented constraint; AND for an accepted file every documented string value of the returned configuration (names, addresses, paths, token, IP lists, header names, plugin names and option values) equals what yaml.v3 reads at that place of the same text; "+
 		"non-trivial = >= 2 non-default sections, or an invalid section other than the first one the validator examines (backends), or a YAML-typed plugin option")
 	sub.NontrivialFloor(0.60)
 	sub.Floor("reference-accepts", 0.25)
@@ -90,6 +190,12 @@ func TestC18LoadCombos(t *testing.T) {
 	for _, s := range []string{"backends", "server", "timeouts", "load_balancer", "health_checks", "rate_limit", "circuit_breaker", "metrics", "admin_api", "logging", "ports"} {
 		sub.Floor("invalid-in="+s, 0.01)
 	}
+	sub.Floor("str:dollar", 0.25)
+	sub.Floor("str:dollar-brace", 0.03)
+	sub.Floor("str:percent", 0.05)
+	sub.Floor("str:hash", 0.05)
+	sub.Floor("str:backslash", 0.05)
+	sub.Floor("roundtrip-compared", 0.25)
 	ld := newLoader(t)
 	lab.Check(t, sub, 10000, 300000, func(rt *rapid.T) {
 		m := GenValid(rt, []string{"int", "float", "string"})
@@ -103,9 +209,23 @@ func TestC18LoadCombos(t *testing.T) {
 		excludeFormatText(sub, m)
 		viol := Violations(m)
 		text := m.YAML()
-		_, err := ld.Load([]byte(text))
+		if h := renderingSelfCheck(m, text); h != "" {
+			rt.Fatalf("%s\n%s", h, text)
+		}
+		cfg, err := ld.Load([]byte(text))
 		nt, labels := loadLabels(m, viol, applied)
+		labels = append(labels, stringLabels(m)...)
+		var diffs []string
+		if err == nil {
+			var n int
+			if diffs, n = RoundTrip([]byte(text), cfg); n > 0 {
+				labels = append(labels, "roundtrip-compared")
+			}
+		}
 		sub.Case(map[string]any{"model": m, "faults": applied}, nt, labels...)
+		if len(diffs) > 0 {
+			rt.Fatalf("LoadConfig accepted the file but returned other values than the file says: %s\n%s", strings.Join(diffs, "; "), text)
+		}
 		if (err == nil) != (len(viol) == 0) {
 			if err == nil {
 				rt.Fatalf("LoadConfig ACCEPTED a configuration that violates documented constraints %v (faults %v):\n%s", viol, applied, text)
@@ -158,20 +278,23 @@ func TestC18LoadEnumerated(t *testing.T) {
 	const name = "load-tables-enumerated"
 	sub := lab.Sub(name, fmt.Sprintf("ALL %d entries of the fault table (one per documented constraint x offending value) and ALL %d entries of the documented-valid table (every documented enum value, both sides of every boundary, "+
 		"omitted/disabled features) applied one at a time to the shipped sample configuration re-stated as a model, plus ALL ordered pairs of faults from different sections (the validator returns on the first error); "+
-		"oracle: LoadConfig(file) == nil <=> reference accepts; the harness also checks that each table entry produces exactly the violation it is named after; non-trivial = all (every case has >= 2 non-default sections)",
+		"oracle: LoadConfig(file) == nil <=> reference accepts, and an accepted file's documented string values come back as yaml.v3 reads them from the text; the harness also checks that each table entry produces exactly the violation it is named after; non-trivial = all (every case has >= 2 non-default sections)",
 		len(Faults), len(ValidVariants)))
 	var rc singleCase
 	ld := newLoader(t)
-	run := func(c singleCase) (viol []string, err error, text string) {
+	run := func(c singleCase) (viol []string, err error, text string, diffs []string) {
 		m := buildSingle(c)
 		viol = Violations(m)
 		text = m.YAML()
-		_, err = ld.Load([]byte(text))
+		var cfg *config.Config
+		if cfg, err = ld.Load([]byte(text)); err == nil {
+			diffs, _ = RoundTrip([]byte(text), cfg)
+		}
 		return
 	}
 	if lab.ReplayCase(name, &rc) {
-		if viol, err, text := run(rc); (err == nil) != (len(viol) == 0) {
-			lab.Violation(t, name, rc, "LoadConfig error %v, reference violations %v\n%s", err, viol, text)
+		if viol, err, text, diffs := run(rc); (err == nil) != (len(viol) == 0) || len(diffs) > 0 {
+			lab.Violation(t, name, rc, "LoadConfig error %v, reference violations %v, differences between file and returned configuration %v\n%s", err, viol, diffs, text)
 		}
 		return
 	}
@@ -202,7 +325,7 @@ func TestC18LoadEnumerated(t *testing.T) {
 			complete = false
 			continue
 		}
-		viol, err, text := run(c)
+		viol, err, text, diffs := run(c)
 		// harness self-check: the tables mean what their names say
 		switch c.Kind {
 		case "variant":
@@ -234,6 +357,9 @@ func TestC18LoadEnumerated(t *testing.T) {
 			labels = append(labels, "reference-rejects")
 		}
 		sub.Case(c, true, labels...)
+		if len(diffs) > 0 {
+			lab.Violation(t, name, c, "LoadConfig accepted %v but returned other values than the file says: %s\n%s", c.IDs, strings.Join(diffs, "; "), text)
+		}
 		if (err == nil) != (len(viol) == 0) {
 			if err == nil {
 				lab.Violation(t, name, c, "LoadConfig ACCEPTED %v although it violates %s:\n%s", c.IDs, strings.Join(viol, ", "), text)
